@@ -218,7 +218,7 @@ def shrink(ctx, files, am, budget=60):
 
 def run(ctx):
     r = ctx.rng
-    n = 60 if ctx.quick else 1500
+    n = 60 if ctx.quick else 450
     reqs, impl, inputs = [], [], []
     oracle_checked = 0
     for i in range(n):
